@@ -45,6 +45,10 @@ structure FPSpec (F : Type) [FloatLike F] where
   ceil_spec : ∀ a : F, |toRat a| ≤ 4503599627370496 → toRat (FloatLike.ceil a) = ⌈toRat a⌉
   trunc_spec : ∀ a : F, 0 ≤ toRat a → toRat a ≤ 4503599627370496 → FloatLike.trunc a = ⌊toRat a⌋
   lt_spec : ∀ a b : F, FloatLike.lt a b = decide (toRat a < toRat b)
+  sub_spec : ∀ a b : F, toRat (FloatLike.sub a b) = rnd (toRat a - toRat b)
+  /-- `math.Round` (half away from zero) is exact below 2⁵² -/
+  round_spec : ∀ a : F, |toRat a| ≤ 4503599627370496 → toRat (FloatLike.round a) = ((ratRound (toRat a) : ℤ) : ℚ)
+  max_spec : ∀ a b : F, toRat (FloatLike.max a b) = max (toRat a) (toRat b)
 
 /-- exact rational arithmetic satisfies the specification (rounding is the identity) -/
 def ratSpec : FPSpec Rat where
@@ -70,6 +74,13 @@ def ratSpec : FPSpec Rat where
     have h' : a ≥ 0 := h
     rw [if_pos h']; rfl
   lt_spec := fun _ _ => rfl
+  sub_spec := fun _ _ => rfl
+  round_spec := fun _ _ => rfl
+  max_spec := fun a b => by
+    show (if a < b then b else a) = max a b
+    rcases lt_or_ge a b with h | h
+    · rw [if_pos h, max_eq_right (le_of_lt h)]
+    · rw [if_neg (not_lt.mpr h), max_eq_left h]
 
 variable {F : Type} [FloatLike F] (S : FPSpec F)
 
